@@ -120,6 +120,18 @@ def C16(tier):
                     got = w(*pos, **kw)
                     if got != f(*pos, **kw) and bad is None:
                         bad = (name, pos, kw, got)
+        # ignored arguments are left out of the key but still reach the function (each call a miss)
+        for ign in ({'a'}, {0, 'b'}, {1, 'a', 'b'}):
+            c3 = diskcache.Cache(d + '/g')
+            for name, w in (('Cache.memoize(ignore=%r)' % (ign,), c3.memoize(typed=True, ignore=ign)(f)),
+                            ('memoize_stampede(ignore=%r)' % (ign,), recipes.memoize_stampede(c3, expire=100, ignore=ign)(f))):
+                for pos, kw in sigs:
+                    cases += 1
+                    c3.clear()
+                    got = w(*pos, **kw)
+                    if got != f(*pos, **kw) and bad is None:
+                        bad = (name, pos, kw, got)
+            c3.close()
         # stampede with forced early recomputation
         clock = [1000.0]
         real_time, real_random = recipes.time.time, recipes.random.random
@@ -1033,7 +1045,8 @@ def C10(tier):
                 elif op == 'tick':
                     clock[0] += rnd.choice([1, 2, 5])
                 elif op == 'plain':
-                    k = rnd.choice(['plainkey', 'zz', -5, 10 ** 15 + 7, b'q-1', 'q', 'jobs'])
+                    k = rnd.choice(['plainkey', 'zz', -5, 10 ** 15 + 7, b'q-1', 'q', 'jobs',
+                                    0, 999999999999999, 'q-000000000000000', 'jobs-999999999999999'])   # the exclusive bounds
                     c[k] = step
                     plain[k] = step
                 elif op == 'plainget':
@@ -1078,7 +1091,7 @@ def C17(tier):
     import sqlite3
     import diskcache
     damages = ['delete_file', 'truncate', 'extend', 'add_file', 'empty_dir', 'nested_empty', 'count', 'size', 'add_file_deep',
-               'count_as_if_removed', 'size_as_if_removed']
+               'count_as_if_removed', 'size_as_if_removed', 'add_file_top']
     combos = [()] + [(x,) for x in damages] + list(itertools.combinations(damages, 2))
     if tier != 'quick':
         combos += list(itertools.combinations(damages, 3))
@@ -1115,6 +1128,9 @@ def C17(tier):
                         open(vals[2], 'ab').write(b'yy')
                     elif dm == 'add_file':
                         open(os.path.join(os.path.dirname(vals[3]), 'stray.val'), 'wb').write(b'junk')
+                    elif dm == 'add_file_top':
+                        # next to cache.db, in the (shard) directory itself
+                        open(os.path.join(os.path.dirname(os.path.dirname(os.path.dirname(vals[4]))), 'stray.tmp'), 'wb').write(b'junk')
                     elif dm == 'add_file_deep':
                         os.makedirs(os.path.join(sd, 'zz', 'yy', 'xx'))
                         open(os.path.join(sd, 'zz', 'yy', 'xx', 'junk'), 'wb').write(b'junk')
@@ -1181,7 +1197,7 @@ def C17(tier):
         if bad:
             break
     return [result('C17.standin.damage_combinations', bad is None,
-                   'all subsets of size <= %d of 11 damage kinds (files deleted/truncated/extended/added, empty and nested empty directories, count, size) on Cache and a 2-shard FanoutCache' % (2 if tier == 'quick' else 3), cases, bad)]
+                   'all subsets of size <= %d of 12 damage kinds (files deleted/truncated/extended/added at three depths, empty and nested empty directories, count, size) on Cache and a 2-shard FanoutCache' % (2 if tier == 'quick' else 3), cases, bad)]
 
 
 # ====================================================================== lock timeouts (C14)
@@ -1765,6 +1781,17 @@ def C18(tier):
             h.close()
             if h.get('k') != b'v' * 200:
                 bad = bad or '%s: a closed object does not reopen transparently' % how
+        # a Disk subclass with a constructor argument of its own: the setting is stored and restored too
+        j = diskcache.Cache(d + '/j', disk=diskcache.JSONDisk, disk_compress_level=6)
+        j.set('alpha', [1, 2])
+        j.close()
+        for how, h in (('reopen', diskcache.Cache(d + '/j', disk=diskcache.JSONDisk)),
+                       ('pickle', pickle.loads(pickle.dumps(j)))):
+            cases += 1
+            if h.disk.compress_level != 6 or h.get('alpha') != [1, 2] or 'alpha' not in h or len(h) != 1:
+                bad = bad or 'JSONDisk created with compress_level=6, %s: compress_level %r, item visible: %r' % (
+                    how, h.disk.compress_level, 'alpha' in h)
+            h.close()
         f = diskcache.FanoutCache(d + '/f', shards=3, cull_limit=7)
         f.set('a', 1)
         g = pickle.loads(pickle.dumps(f))
